@@ -1,4 +1,5 @@
 import Proofs.Effects
+import Proofs.EffectsFull
 import BycycleModel.EffectPrograms
 /-!
 # C15 — analysis functions are pure: no input mutation, no call-history dependence
@@ -28,6 +29,16 @@ theorem C15_frame (f : Fn) (hf : f ∈ pureFns) (oracle : List Bool) : f.run sum
 theorem C15_summaries (f : Fn) (hnd : f.params.Nodup) (hr : f.respects summaries = true) (oracle : List Bool)
     (o : Nat) (ho : o ∈ f.run summaries oracle) : o ∈ summaries.get f.name := respects_sound summaries f hnd hr oracle o ho
 
+/-- INTERPROCEDURAL version: calls among the listed functions execute the callee's body on the shared object
+store (`execFull`); with every body respecting its summary, no listed function writes a caller-owned object,
+for every branch resolution and every step budget. -/
+theorem C15_frame_full (f : Fn) (hf : f ∈ pureFns) (fuel : Nat) (oracle : List Bool) :
+    f.runFull pureFns summaries fuel oracle = [] := frame_full f hf fuel oracle
+
+theorem C15_sound_full (prog : List Fn) (summ : Summ) (hw : wellSummarised prog summ = true)
+    (f : Fn) (hf : f ∈ prog) (fuel : Nat) (oracle : List Bool) (o : Nat) (ho : o ∈ f.runFull prog summ fuel oracle) :
+    o ∈ summ.get f.name := sound_full prog summ hw f hf fuel oracle o ho
+
 /-- non-vacuity: without the defensive copy of `burst_kwargs` the analysis reports the write
 (this is the defect repaired by commit c9c7490). -/
 example : (Fn.mayWrite summaries ⟨"compute_features (no copy)", ["sig", "burst_kwargs", "threshold_kwargs", "find_extrema_kwargs"], [
@@ -35,5 +46,12 @@ example : (Fn.mayWrite summaries ⟨"compute_features (no copy)", ["sig", "burst
 /-- non-vacuity of the dynamic side: with the oracle taking the writing branch, parameter 1 is written. -/
 example : (Fn.run summaries ⟨"compute_features (no copy)", ["sig", "burst_kwargs"], [
     .copyIf false "burst_kwargs" "burst_kwargs", .ite [.fresh "burst_kwargs"] [], .ite [.write "burst_kwargs"] []]⟩ [false, true]) = [1] := by decide
+/-- non-vacuity of the interprocedural semantics: the write happens inside the callee's body (no summary is consulted),
+and the static side, given the callee's summary, reports it. -/
+example : (Fn.runFull [⟨"g", ["d"], [.write "d"]⟩, ⟨"f", ["a", "b"], [.call "g" ["b"]]⟩] [] 10 ⟨"f", ["a", "b"], [.call "g" ["b"]]⟩ []) = [1] := by decide
+example : wellSummarised [⟨"g", ["d"], [.write "d"]⟩, ⟨"f", ["a", "b"], [.call "g" ["b"]]⟩] [("g", [0]), ("f", [1])] = true := by decide
+/-- a branch cut short by the step budget is never followed by the continuation (regression for the first, unsound
+formulation of `execFull`, found while proving `sound_full`). -/
+example : (Fn.runFull [⟨"f", ["p"], [.ite [.alias "x" "p", .fresh "x"] [], .write "x"]⟩] [] 2 ⟨"f", ["p"], [.ite [.alias "x" "p", .fresh "x"] [], .write "x"]⟩ [true]) = [] := by decide
 
 end Bycycle.Eff
